@@ -52,6 +52,31 @@ DERIVED_CACHES = {
 INSTANTIATORS = ("_instantiate_distributor", "_instantiate_shampoo_preconditioner_list", "_instantiate_grafting", "_instantiate_steps", "_instantiate_momentum", "_instantiate_filtered_grads")
 
 
+def bias_correction_every_step(ctx, rep, rule: str) -> None:
+    """`_bias_correction2 = 1 - beta2**step` is recomputed on EVERY update_preconditioners call from beta2 and the step argument
+    only (the eigenvalue-corrected list divides by it on every step, a restored optimizer has the initial value)."""
+    repo = ctx.repo
+    # _bias_correction2 side-condition: a function of beta2 and the step argument only
+    for cq in ("distributed_shampoo.utils.shampoo_preconditioner_list:AdagradPreconditionerList", "distributed_shampoo.utils.shampoo_preconditioner_list:BaseShampooPreconditionerList"):
+        fi = repo.meth(repo.cls(cq), "update_preconditioners")
+        asg = [n for n in A.walk_no_nested(fi.node) if isinstance(n, ast.Assign) and _norm(n.targets[0]) == "self._bias_correction2"]
+        ok = len(asg) == 1 and (A.names_in(asg[0].value) - {"torch", "self"}) == {"step"} and "self._beta2" in _norm(asg[0].value)
+        # ... on EVERY call: the only conditions it may depend on are the (constructor-fixed) bias-correction flag and beta2 —
+        # under any per-step condition (e.g. only on refresh steps) a freshly restored object would use the initial value
+        dep = []
+        if ok:
+            c2 = CFG(fi.node)
+            for t, lab in c2.branch_conditions(c2.node_of(asg[0])):
+                if t.kind != "test":
+                    dep.append("loop")
+                    continue
+                attrs = {x.attr for x in ast.walk(t.ast.test) if isinstance(x, ast.Attribute)}
+                if (A.names_in(t.ast.test) - {"self"}) or not attrs <= {"_use_bias_correction", "_beta2"}:
+                    dep.append(_norm(t.ast.test))
+        ok = ok and not dep
+        rep.ob(rule, f"cache-side-condition:{short(fi.qual)}._bias_correction2", ok, fi.loc(asg[0]) if asg else fi.loc(), "the bias-correction cache is recomputed from beta2 and the step counter only, on every call" + (f"; it is recomputed only under `{dep[0]}`: on other steps a restored optimizer uses the initial value" if dep else ""))
+
+
 def persistence(ctx, rep, rule: str) -> None:
     repo = ctx.repo
     pts = ctx.engine("pts")
@@ -85,25 +110,7 @@ def persistence(ctx, rep, rule: str) -> None:
                 ok = name in DERIVED_CACHES
                 rep.ob(rule, f"carried:{name}", ok, fi.loc(node), f"`{name}` is assigned in {short(q)} on the step path" + (f"; derived cache: {DERIVED_CACHES[name]}" if ok else " — it carries information from one step to the next but is neither optimizer state (self.state) nor a listed derived cache: the checkpoint does not contain it"), sample=(n % 6 == 0))
     rep.floor(rule, "assignments on the step path", n, 15)
-    # _bias_correction2 side-condition: a function of beta2 and the step argument only
-    for cq in ("distributed_shampoo.utils.shampoo_preconditioner_list:AdagradPreconditionerList", "distributed_shampoo.utils.shampoo_preconditioner_list:BaseShampooPreconditionerList"):
-        fi = repo.meth(repo.cls(cq), "update_preconditioners")
-        asg = [n for n in A.walk_no_nested(fi.node) if isinstance(n, ast.Assign) and _norm(n.targets[0]) == "self._bias_correction2"]
-        ok = len(asg) == 1 and (A.names_in(asg[0].value) - {"torch", "self"}) == {"step"} and "self._beta2" in _norm(asg[0].value)
-        # ... on EVERY call: the only conditions it may depend on are the (constructor-fixed) bias-correction flag and beta2 —
-        # under any per-step condition (e.g. only on refresh steps) a freshly restored object would use the initial value
-        dep = []
-        if ok:
-            c2 = CFG(fi.node)
-            for t, lab in c2.branch_conditions(c2.node_of(asg[0])):
-                if t.kind != "test":
-                    dep.append("loop")
-                    continue
-                attrs = {x.attr for x in ast.walk(t.ast.test) if isinstance(x, ast.Attribute)}
-                if (A.names_in(t.ast.test) - {"self"}) or not attrs <= {"_use_bias_correction", "_beta2"}:
-                    dep.append(_norm(t.ast.test))
-        ok = ok and not dep
-        rep.ob(rule, f"cache-side-condition:{short(fi.qual)}._bias_correction2", ok, fi.loc(asg[0]) if asg else fi.loc(), "the bias-correction cache is recomputed from beta2 and the step counter only, on every call" + (f"; it is recomputed only under `{dep[0]}`: on other steps a restored optimizer uses the initial value" if dep else ""))
+    bias_correction_every_step(ctx, rep, rule)
     # in-place writes on the step path hit state, parameters, gradients, communication buffers or fresh tensors only
     ds_objs = pts.objects_of_class(DS)
     persistent: set = set()
